@@ -1,5 +1,5 @@
 (* C10 - expressions denoting the same Boolean function get the same verdict. *)
-From Spdx Require Import Props.Shipped Spec.Eval Proofs.Laws Proofs.Respell Proofs.Split Proofs.SpacesAnywhere.
+From Spdx Require Import Props.Shipped Spec.Eval Spec.Grammar Proofs.Lexo Proofs.Laws Proofs.Respell Proofs.Split Proofs.SpacesAnywhere Proofs.Subst Proofs.SubstText.
 Local Open Scope list_scope.
 
 Theorem C10 e1 t1 e2 t2 A : parse T0 e1 = Ok t1 -> parse T0 e2 = Ok t2 -> (forall v, eval v t1 = eval v t2) ->
@@ -60,11 +60,42 @@ Proof.
   repeat split; reflexivity.
 Qed.
 
+(* Operand positions are compositional.  C: any valid token sequence in which the reference LicenseRef-z marks operand
+   positions (as a whole term: nodoc); u: any token sequence that is an operand on its own (d_atom: a license term, a
+   reference, a parenthesised expression).  Then C with u at the marks parses to C's tree with u's tree at the marks;
+   ( u ) at the marks parses to the same tree - a redundant pair of parentheses around an operand never matters,
+   however deep the operand stands; and a parenthesised expression is an operand whatever surrounds it. *)
+Theorem C10_operand_substitution C t z u a : p_tokens C = Ok t -> nodoc z t = true -> d_atom u a ->
+  p_tokens (tsubst z u C) = Ok (nsubst z a t) /\
+  p_tokens (tsubst z (TOp OLp :: u ++ [TOp ORp]) C) = p_tokens (tsubst z u C).
+Proof. intros HC Hn Hu. exact (conj (parse_subst C t z u a HC Hn Hu) (parens_redundant_anywhere C t z u a HC Hn Hu)). Qed.
+Theorem C10_parentheses_group C t z e te : p_tokens C = Ok t -> nodoc z t = true -> p_tokens e = Ok te ->
+  p_tokens (tsubst z (TOp OLp :: e ++ [TOp ORp]) C) = Ok (nsubst z te t) /\
+  forall v, eval v (nsubst z te t) = eval (fun leaf => if is_mark_leaf z leaf then eval v te else v leaf) t.
+Proof. intros HC Hn He. exact (conj (parens_group C t z e te HC Hn He) (fun v => eval_nsubst v z te t)). Qed.
+
+(* the same on the caller's text: an operand w that reads as a unit between p and q (the tokens of p w q are those of p,
+   w and q) at a place where a reference would be valid may be written ( w ): same tree, so same verdict and same
+   extracted set (C10 / C10_extract above) *)
+Theorem C10_redundant_parentheses_anywhere p w q tp tw tq z t a :
+  lexo T0 p = Some tp -> lexo T0 w = Some tw -> lexo T0 q = Some tq -> lexo T0 (p ++ w ++ q) = Some (tp ++ tw ++ tq) ->
+  forallb (fun tk => negb (is_marker z tk)) tp = true -> forallb (fun tk => negb (is_marker z tk)) tq = true ->
+  p_tokens (tp ++ TRef z :: tq) = Ok t -> nodoc z t = true -> d_atom tw a -> w <> [] ->
+  parse T0 (p ++ w ++ q) = Ok (nsubst z a t) /\ parse T0 (p ++ "("%char :: w ++ ")"%char :: q) = Ok (nsubst z a t).
+Proof. exact (parens_redundant_text T0 HT0 p w q tp tw tq z t a). Qed.
+Example C10_redundant_parentheses_example :
+  let p := s2l "MIT AND (Zlib OR " in let w := s2l "GPL-2.0-only WITH Classpath-exception-2.0" in let q := s2l ") AND ISC" in
+  (exists tp tw tq t a, lexo T0 p = Some tp /\ lexo T0 w = Some tw /\ lexo T0 q = Some tq /\ lexo T0 (p ++ w ++ q) = Some (tp ++ tw ++ tq)
+     /\ forallb (fun tk => negb (is_marker (s2l "z") tk)) (tp ++ tq) = true /\ p_tokens (tp ++ TRef (s2l "z") :: tq) = Ok t
+     /\ nodoc (s2l "z") t = true /\ p_tokens tw = Ok a)
+  /\ parse T0 (p ++ "("%char :: w ++ ")"%char :: q) = parse T0 (p ++ w ++ q).
+Proof. split; [do 5 eexists; vm_compute; repeat split; reflexivity|vm_compute; reflexivity]. Qed.
+
 Example C10_example :
   parse T0 (s2l "  ((MIT))   AND (ISC OR  Zlib) ") = parse T0 (s2l "MIT AND (ISC OR Zlib)")
   /\ satisfies T0 (s2l "(MIT AND ISC) OR (MIT AND Zlib)") [s2l "Zlib"; s2l "MIT"] = satisfies T0 (s2l "MIT AND (ISC OR Zlib)") [s2l "Zlib"; s2l "MIT"].
 Proof. vm_compute. split; reflexivity. Qed.
 
 (* axioms the property theorems of this file depend on (one traversal for all of them) *)
-Definition C10_theorems := (@C10, @C10_laws, @C10_and_or, @C10_extract, @C10_spaces_parentheses, @C10_spaces_anywhere, @C10_decomposition).
+Definition C10_theorems := (@C10, @C10_laws, @C10_and_or, @C10_extract, @C10_spaces_parentheses, @C10_spaces_anywhere, @C10_decomposition, @C10_operand_substitution, @C10_parentheses_group, @C10_redundant_parentheses_anywhere).
 Redirect "assumptions/C10" Print Assumptions C10_theorems.
